@@ -37,13 +37,18 @@
 (*   NoAttrRecheck     verifyTxAttributes is skipped by the refresh        *)
 (*   NoWitnessRecheck  non-standard witnesses are not re-verified          *)
 (*   NoFpbFilter       RemoveStale has no fee-per-byte filter              *)
-(* FeeRecheck = "asis" models the code as it is (the filter above is all   *)
-(* that is done about fees); "exact" models the repaired design: the       *)
+(* FeeRecheck = "exact" models the code since the repair c8f704d: the       *)
 (* refresh compares the network fee with size x fee-per-byte + attribute   *)
-(* fees + verification cost again.  With "asis" TLC refutes Proposable as  *)
-(* soon as a block raises the fee per byte, the execution fee factor or an *)
-(* attribute fee (findings reported from the real code with the grounds    *)
-(* fee-per-byte / exec-fee / attribute-fee).                               *)
+(* fees + verification cost again (standard witnesses priced with          *)
+(* fee.Calculate, non-standard ones re-verified within what is left).      *)
+(* FeeRecheck = "asis" is the code BEFORE that repair (named deviation     *)
+(* NoFeeRecheck): nothing is done about fees except the pool's filter; TLC *)
+(* refutes Proposable as soon as a block raises the fee per byte, the      *)
+(* execution fee factor or an attribute fee (found on the real code with   *)
+(* the grounds fee-per-byte / fee-per-byte-ratchet / exec-fee /            *)
+(* attribute-fee, then repaired).  NoFpbFilter is checked together with    *)
+(* "asis" (the filter was the only fee check then; since c8f704d it is     *)
+(* redundant).                                                             *)
 (***************************************************************************)
 EXTENDS Integers, Sequences, FiniteSets, SequencesExt, FiniteSetsExt, TLC
 
@@ -198,6 +203,8 @@ OpOK(b) ==
       \* the drained account / the account naming a transaction signs the scenario transaction itself
       [] b.op = "drain"    -> st.bal[b.a] >= b.v /\ st.bal[b.a] < Abs!Cap /\ b.a \notin st.blocked
       [] b.op = "conflict" -> b.v \notin st.chain /\ b.a \notin st.blocked
+      \* deposits of the universes are locked until the first block of a history
+      [] b.op = "withdraw" -> st.bal[b.a] > 0 /\ st.h >= 1
       [] OTHER             -> TRUE
 
 Block(k) ==
